@@ -157,6 +157,108 @@ def c15_r3(ctx):
                  'a boundary would be lost or read twice' % (show_dnf(dnf), [show_dnf(d) for d in disc]), None)
 
 
+@rule('C15', 'R5', 'file/CSV split: the share of a replica is a truncating division, so the last replica reads up to the end of the file')
+def c15_r5(ctx):
+    """`range_size = size / replicas` rounds down; `replicas * range_size` can be up to `replicas - 1` bytes short of the file. The
+    bytes of that remainder belong to no replica unless the value stored as the end of some replica's range is the size the
+    division started from (on the replica tested to be the last one). Checked on the data flow of `setup`, not on names."""
+    facts = ctx.facts
+    n = 0
+    for adt in (FILE, CSV):
+        su = facts.method(adt, 'setup', trait=OP)
+        sym = q.sym(facts, su)
+        name = adt.split('::')[-1]
+        divs = []
+        for bi, blk in enumerate(su.blocks):
+            if blk['cleanup']:
+                continue
+            for st in blk['s']:
+                if st['k'] == 'assign' and st['rv']['r'] == 'bin' and st['rv']['op'] == 'Div':
+                    b_ = render(strip(sym.operand(st['rv']['b'])))
+                    if 'replicas' in b_ or 'len(' in b_:
+                        divs.append((bi, st, sym.operand(st['rv']['a']), b_))
+        if not divs:
+            raise AnchorMissing('%s::setup: no division of the input size by the number of replicas' % name)
+        bi, st, total, per = divs[0]
+        total_s = render(strip(total))
+        # the total may itself be `file_size - header_size` (CSV): the end of the last replica is then the file size
+        totals = [total]
+        t_ = strip(total)
+        if t_[0] == 'field' and strip(t_[1])[0] == 'bin':
+            t_ = strip(t_[1])
+        if t_[0] == 'bin' and t_[1] in ('Sub', 'SubWithOverflow'):
+            totals.append(t_[2])
+        # where does `<start> + <share>` go? a field of self, or a local that has other definitions too (`let mut end = if last {..}`)
+        div_local = st['lhs'][0] if is_local(st['lhs']) else None
+        ends = []
+        for b2, blk2 in enumerate(su.blocks):
+            if blk2['cleanup']:
+                continue
+            for st2 in blk2['s']:
+                if st2['k'] != 'assign' or st2['rv']['r'] != 'bin' or st2['rv']['op'] not in ('Add', 'AddWithOverflow'):
+                    continue
+                r2 = render(strip(sym.rvalue(st2['rv'])))
+                opnds = [render(strip(sym.operand(st2['rv'][k_]))) for k_ in ('a', 'b')]
+                # `<something> + <share>`: one addend is the quotient itself (not a multiple of it: that is the start offset)
+                if not any(o.startswith('Div(') for o in opnds) or 'read_until' in r2:
+                    continue
+                # follow the sum through copies to the place that finally holds it
+                loc = st2['lhs'][0]
+                hops = 0
+                holder = None
+                while hops < 6 and holder is None:
+                    hops += 1
+                    nxt = None
+                    for b3, blk3 in enumerate(su.blocks):
+                        for st3 in blk3['s']:
+                            if st3['k'] == 'assign' and st3['rv']['r'] in ('use', 'cast') and st3['rv']['o'][0] != 'k' and st3['rv']['o'][1][0] == loc:
+                                if is_local(st3['lhs']):
+                                    if len(su.defs().get(st3['lhs'][0], [])) > 1:
+                                        holder = ('local', st3['lhs'][0], st3)
+                                    else:
+                                        nxt = st3['lhs'][0]
+                                else:
+                                    holder = ('place', st3['lhs'], st3)
+                    if holder is None:
+                        if nxt is None:
+                            break
+                        loc = nxt
+                if holder and holder[0] == 'local':
+                    alts_ = []
+                    for (db, ds) in su.defs().get(holder[1], []):
+                        node = su.def_node((db, ds))
+                        if ds != 'T' and not ('read_until' in render(strip(sym.rvalue(node['rv'])))):
+                            alts_.extend(q.alternatives(facts, su, sym.rvalue(node['rv']), depth=1, as_terms=True))
+                    ends.append((b2, holder[2], alts_))
+                elif holder:
+                    alts_ = []
+                    for b3, blk3 in enumerate(su.blocks):
+                        for st3 in blk3['s']:
+                            if st3['k'] == 'assign' and st3['lhs'] == holder[1]:
+                                alts_.extend(q.alternatives(facts, su, sym.rvalue(st3['rv']), as_terms=True))
+                    ends.append((b2, holder[2], alts_))
+        if not ends:
+            raise AnchorMissing('%s::setup: cannot find where `start + share` (the end of the replica\'s range) is kept' % name)
+        n += 1
+        alts_t = [a for _, _, al in ends for a in al if isinstance(a, tuple)]
+        alts = [render(strip(a)) for a in alts_t]
+        ctx.inst('%s::setup|end of the range' % name, {'size divided': total_s[:80], 'divisor': per[:60], 'values the end can take': [a[:80] for a in alts]})
+
+        def same_size(a):
+            a = strip(a)
+            while a and a[0] == 'cast':
+                a = strip(a[-1]) if isinstance(a[-1], tuple) else a
+                break
+            return any(q.term_match(a, t) for t in totals)
+        covers = [a for a in alts_t if same_size(a)]
+        if not covers:
+            ctx.viol('%s|remainder-unread' % su.path, ends[0][1]['at'],
+                     '%s::setup gives every replica the end `%s`: the division `%s / %s` rounds down, so up to replicas-1 bytes at the end of '
+                     'the input belong to no replica (the last replica must read up to the input size)' % (name, alts[0][:60], total_s[:40], per[:40]), None)
+    if n == 0:
+        raise AnchorMissing('no file-like source analysed')
+
+
 @rule('C15', 'R4', 'integer range sources clamp the range length at zero (an empty or reversed range yields nothing)')
 def c15_r4(ctx):
     facts = ctx.facts
